@@ -23,6 +23,7 @@ import SpsdkVerif.Properties.C11
 import SpsdkVerif.Generated.RegLayouts
 import SpsdkVerif.Generated.RegDetails
 import SpsdkVerif.Generated.PfrRules
+import SpsdkVerif.Generated.ScalarRule
 import SpsdkVerif.Generated.CrcTable
 
 namespace SpsdkVerif.C12
@@ -1022,6 +1023,52 @@ theorem gen_config_roundtrip_groups (l : Layout) (d : LayoutD) (hld : (l, d) ∈
   simp only [hk3, Bool.false_or] at hfn
   simp only [hk1, Bool.false_or] at hgr
   exact area_config_roundtrip_groups l d vals ha hlen wf hgr hr hn.2 hfn hs hst hunc
+
+/-! ## hex-string registers (`config_as_hexstring`: FCF BACKDOOR_COMPARISON_KEY, CMPA ROTKH, fuse key groups): the text
+    `get_hex_value` writes - hexadecimal digits WITHOUT prefix - is read back as the value by `_load_yml_config`
+
+`Generated/ScalarRule.lean` holds, read from the AST of the CURRENT source, which parser `_load_yml_config` applies to a scalar under
+which condition and in which order (plain scalar and `{value: x}` entry). -/
+
+/-- for a hex-string register given as a string, the first parser that applies is `int(x, 16)` - in both places -/
+theorem scalar_rule_hex_first :
+    Generated.ScalarRule.scalarRule.map hexFirstB = some true ∧ Generated.ScalarRule.dictValueRule.map hexFirstB = some true := by
+  decide
+
+/-- **`load(get_hex_value(v)) = v`** for a `config_as_hexstring` register of `w` bits (`w` a multiple of 4, e.g. an alternative
+    width) and EVERY `v < 2^w` - the digit-only texts ('0000000000000010', '1122334455667788', all nines) and the texts that look
+    like a binary literal ('0B11…') included: the `w/4` digits written by `get_hex_value` decode to `v` under the rule of the
+    current source -/
+theorem hexstring_scalar_roundtrip (w v : Nat) (h4 : w % 4 = 0) (hw : 0 < w) (hv : v < 2 ^ w) :
+    (∃ rule, Generated.ScalarRule.scalarRule = some rule ∧ decodeScalar rule true (.digits (hexDigits (w / 4) v)) = some v) ∧
+    (∃ rule, Generated.ScalarRule.dictValueRule = some rule ∧ decodeScalar rule true (.digits (hexDigits (w / 4) v)) = some v) := by
+  have hn : 0 < w / 4 := by omega
+  have hv' : v < 16 ^ (w / 4) := by
+    have : (16 : Nat) ^ (w / 4) = 2 ^ w := by
+      rw [show (16 : Nat) = 2 ^ 4 from rfl, ← Nat.pow_mul]; congr 1; omega
+    rw [this]; exact hv
+  obtain ⟨h1, h2⟩ := scalar_rule_hex_first
+  constructor
+  · cases hr : Generated.ScalarRule.scalarRule with
+    | none => rw [hr] at h1; cases h1
+    | some rule =>
+      rw [hr] at h1
+      simp only [Option.map_some, Option.some.injEq] at h1
+      exact ⟨rule, rfl, decodeScalar_hex rule h1 _ v hn hv'⟩
+  · cases hr : Generated.ScalarRule.dictValueRule with
+    | none => rw [hr] at h2; cases h2
+    | some rule =>
+      rw [hr] at h2
+      simp only [Option.map_some, Option.some.injEq] at h2
+      exact ⟨rule, rfl, decodeScalar_hex rule h2 _ v hn hv'⟩
+
+example : hexDigits 16 0x10 = [0, 0, 0, 0, 0, 0, 0, 0, 0, 0, 0, 0, 0, 0, 1, 0] := by decide
+/-- why the order matters (seeded change C12f): "try `value_to_int` first, fall back to base 16" reads the digit-only text of 0x10
+    as the decimal number 10, and a text that starts with 0B as a binary literal; the checker refuses that rule -/
+example : decodeScalar [⟨.always, .valueToInt, true⟩, ⟨.hexReg, .hex16, false⟩] true (.digits (hexDigits 16 0x10)) = some 10 := by decide
+example : decodeScalar [⟨.always, .valueToInt, true⟩, ⟨.hexReg, .hex16, false⟩] true (.digits (hexDigits 4 0x0B11)) = some 3 := by decide
+example : decodeScalar [⟨.always, .valueToInt, true⟩, ⟨.hexReg, .hex16, false⟩] true (.digits (hexDigits 4 0xBEEF)) = some 0xBEEF := by decide
+example : hexFirstB [⟨.always, .valueToInt, true⟩, ⟨.hexReg, .hex16, false⟩] = false := by decide
 
 /-! ## alternative-width, byte-reversed registers (ROTKH of the CMPA, RKTH fuse group) -/
 
